@@ -18,9 +18,11 @@ NTF_OPS = {"nwait", "notify"}
 CHAN_OPS = {"send", "recv", "tryrecv", "droprx"}
 ARC_OPS = {"aclone", "adrop", "acount", "agetmut", "aunwrap", "aintoraw", "afromraw", "aptreq"}
 TRK_OPS = {"tnew", "tdrop", "tforget"}
+TL_OPS = {"tlwith", "tlnest"}
+LZ_OPS = {"lzget"}
 # operations that return a value (append to regs)
 RET_OPS = {"ld", "rmw", "cas", "await", "uld", "trylock", "tryread", "trywrite", "recv",
-           "tryrecv", "acount", "agetmut", "aunwrap", "aptreq"}
+           "tryrecv", "acount", "agetmut", "aunwrap", "aptreq", "tlwith", "tlnest", "lzget"}
 BLOCKING_OPS = {"join", "park", "lock", "read", "write", "cvwait", "nwait", "recv", "await"}
 
 
@@ -52,7 +54,7 @@ def br(r, v, n): return I("br", r=r, v=v, w=n)
 def normalize(p):
     """Fill in object tables from the instructions. Returns a new dict."""
     q = {"threads": [[{**DEFAULT, **i} for i in th] for th in p["threads"]]}
-    sets = {k: set(p.get(k, [])) for k in ("atoms", "cells", "mtxs", "rws", "cvs", "ntfs", "chans", "trks")}
+    sets = {k: set(p.get(k, [])) for k in ("atoms", "cells", "mtxs", "rws", "cvs", "ntfs", "chans", "trks", "tls", "lzs")}
     if isinstance(p.get("arcs"), list):     # already normalized: rebuild the declaration
         arcs = {a: {"h0": [h for h in p.get("h0", []) if p["hmap"][h] == a], "cell": p.get("acell", {}).get(a, "")}
                 for a in p["arcs"]}
@@ -86,6 +88,10 @@ def normalize(p):
             elif op in NTF_OPS: sets["ntfs"].add(i["o"])
             elif op in CHAN_OPS: sets["chans"].add(i["o"])
             elif op in TRK_OPS: sets["trks"].add(i["o"])
+            elif op in TL_OPS:
+                sets["tls"].add(i["o"])
+                if op == "tlnest": sets["tls"].add(i["o2"])
+            elif op in LZ_OPS: sets["lzs"].add(i["o"])
             elif op in ARC_OPS:
                 assert i["o"] in hmap, ("unknown handle", i)
     for k, s in sets.items():
@@ -131,8 +137,8 @@ def tla_prog(q):
     parts = {
         "threads": tla([[{f: i[f] for f in FIELDS} for i in th] for th in q["threads"]]),
     }
-    for k in ("atoms", "cells", "mtxs", "rws", "cvs", "ntfs", "chans", "arcs", "trks", "h0"):
-        parts[k] = tla(set(q[k]))
+    for k in ("atoms", "cells", "mtxs", "rws", "cvs", "ntfs", "chans", "arcs", "trks", "h0", "tls", "lzs"):
+        parts[k] = tla(set(q.get(k, [])))
     parts["hmap"] = tla_fun(q["hmap"])
     parts["acell"] = tla_fun(q["acell"])
     return "[" + ", ".join(f"{k} |-> {v}" for k, v in parts.items()) + "]"
